@@ -24,7 +24,20 @@ Sentence of the property → theorem (all for every chain length / nesting / inp
   in the model `call` is a function of the variable and the value and returns no new variable, so this is true by
   construction; the harness checks it on the real objects (var_context snapshots, every value applied twice).
 * the documented rejections of the constructors → `mkVariable_rejects`, `mkCompose_rejects`, `mkCombine_rejects`;
-  an observation about the `name` keyword of `Compose` → `compose_name_keyword_ignored`. -/
+  an observation about the `name` keyword of `Compose` → `compose_name_keyword_ignored` (recorded judgement,
+  `notes/C14_defect_2.md`; `compose_name_keyword` / `mkComposeN_no_name` for the patched constructor `mkComposeN`).
+* attribute access ("all public attributes of a variable can be accessed using dot notation", `__setattr__`,
+  `Combine.__getitem__`) → `getAttr_setAttr`, `getAttr_setAttr_ne`, `getAttr_private`, `getAttr_missing`,
+  `getAttr_mkVariable`, `setAttr_reaches_context`, `combine_getitem`.
+* **any nesting depth** ("for any variables": `Combine` inside `Compose` inside `Combine` …): the class of
+  variables the chain theorems speak about is closed under the three constructors — `mkVariable_wf`,
+  `mkComposeK_wf`, `mkCombine_wf` — hence, by mutual induction over expression trees, `evalExpr_wf` / `evalArgs_wf`
+  (every tree that passes the syntactic check `exprOKb` constructs a variable whose getter is the reference
+  semantics `exprData` and whose context is well-formed with history `exprTypes`), and
+  `compose_eq_sequence_expr`: Compose = Sequence for chains of such trees, from the executable check `chainOKb`
+  alone.  `leavesOKb_sound`, `namesOK2b_sound`, `typesOKb_sound`, `chainWFb_sound`: the Boolean checks the driver
+  reports imply the hypotheses.
+* object identities (in-place mutation) are in `Props/C14Tok.lean`. -/
 namespace Lena.C14
 open V
 
@@ -1385,9 +1398,9 @@ theorem mkCombine_wf (hn2 : NamesOK2 names) {T : List V} (hT : TypesOK names T) 
       by_cases h1 : j = kCombine names
       · simp [h1]
       · by_cases h2 : j = kDim names
-        · simp [h1, h2]
+        · simp [h2]
         · by_cases h3 : j = kName names
-          · simp [h1, h2, h3]
+          · simp [h3]
           · simp only [h1, h2, h3, if_false]
             cases getSlot kw j <;> simp
     have hkl : (setSlot kw (kName names) none).length = names.length := by
